@@ -474,3 +474,45 @@ Print Assumptions C03_ex_second_pod_within_limit.
 Example C03_ex_second_pod_refused :
   verdicts 2 (world_of (ex_case_run 16000)) ops5 = [VQueueRefuses 2].
 Proof. exact ex_second_pod_refused. Qed.
+
+(* ================= third audit (E9, E10): law 119 as Props ================= *)
+
+(* what an admitted PodGroup counts for WITH scheduling-gated pods (round 8): the allocated part up
+   to minResources, plus the unallocated rest of minResources minus what the gated pods request *)
+Theorem C03_counted_inqueue_gated : forall (j : EnqueueLaw.ejob) (d : nat) (m : Z),
+  EnqueueLaw.min_at j d = Some m -> 0 <= nth d (EnqueueLaw.ej_alloc j) 0 ->
+  EnqueueLaw.counted 2 j d =
+  Z.min (nth d (EnqueueLaw.ej_alloc j) 0) m +
+  Z.max (Z.max (m - nth d (EnqueueLaw.ej_alloc j) 0) 0 - nth d (EnqueueLaw.ej_gated j) 0) 0.
+Proof. exact EnqueueLaw.counted_inqueue_gated. Qed.
+Print Assumptions C03_counted_inqueue_gated.
+
+(* a positive Allocatable vote that passes law 119: Open, no child queue (from the Queue objects),
+   and along the chain candidate + allocated pods of the subtree <= capability *)
+Theorem C03_law_enqueue_alloc_sound : forall kind qs js j,
+  EnqueueLaw.law_enqueue kind qs js = true -> In j js -> EnqueueLaw.ej_avote j = 1 ->
+  let hier := (kind mod 10) =? 2 in
+  EnqueueLaw.open_leaf hier qs (EnqueueLaw.ej_queue j) = true /\
+  forall a, In a (EnqueueLaw.chain hier qs (EnqueueLaw.ej_queue j)) ->
+    exists qa, EnqueueLaw.find_queue qs a = Some qa /\
+      forall d c, In d EnqueueLaw.dims -> nth d (EnqueueLaw.eq_cap qa) None = Some c ->
+        0 < nth d (EnqueueLaw.ej_cand j) 0 ->
+        nth d (EnqueueLaw.ej_cand j) 0 + EnqueueLaw.alloc_sum hier qs js a d <= c.
+Proof. exact EnqueueLaw.law_enqueue_alloc_sound. Qed.
+Print Assumptions C03_law_enqueue_alloc_sound.
+
+Theorem C03_law_enqueue_leaf_sound : forall kind qs js j l,
+  EnqueueLaw.law_enqueue kind qs js = true -> In j js -> EnqueueLaw.ej_min j = Some l ->
+  EnqueueLaw.ej_vote j = 1 -> EnqueueLaw.ej_before j = 1 ->
+  EnqueueLaw.open_leaf ((kind mod 10) =? 2) qs (EnqueueLaw.ej_queue j) = true.
+Proof. exact EnqueueLaw.law_enqueue_leaf_sound. Qed.
+Print Assumptions C03_law_enqueue_leaf_sound.
+
+(* E10: the gated deduction is the code's reading (DeductSchGatedResources), weaker than the
+   property text: the observation of the real plugins on the strict-reading witness passes law 119
+   although the admitted minResources counted in full do not fit *)
+Theorem C03_enqueue_gated_strict_reading_refuted :
+  EnqueueLaw.law_enqueue 1 EnqueueLaw.gated_strict_qs EnqueueLaw.gated_strict_js = true /\
+  4000 < 2000 + 3000.
+Proof. exact EnqueueLaw.enqueue_gated_strict_reading_refuted. Qed.
+Print Assumptions C03_enqueue_gated_strict_reading_refuted.
